@@ -461,6 +461,8 @@ def within(pr: dict, assigned, got) -> bool:
             return False
         if dom == "linespacing" and isinstance(assigned, Length) != isinstance(got, Length):
             return False
+        if dom == "int":                 # counts, percentages, style indices: no storage quantum, the same integer
+            return isinstance(got, int) and got == assigned
         q = F(127) if (dom == "linespacing" and isinstance(assigned, Length)) else pr["q"]
         diff = abs(F(got) - F(assigned))
         if pr["mod"]:
